@@ -711,6 +711,33 @@ func mismatchShard(tier string) mc.Shard {
 					}
 				}
 			}
+			// mismatch in the index offset only, after a successful decode of the
+			// receiver's own mapping (decoders must not remember earlier streams)
+			am := a.New()
+			g, o := mapParams(am)
+			for _, d1 := range []float64{0, 1, 0.5} {
+				for _, d2 := range []float64{0, 1, 0.5, -3} {
+					if d1 == d2 {
+						continue
+					}
+					sa := MapSpec{Kind: a.Kind, Gamma: g, Offset: o + d1}
+					sb := MapSpec{Kind: a.Kind, Gamma: g, Offset: o + d2}
+					for _, exact := range []bool{false, true} {
+						recv := NewSkSlot(sa.New(), Kind{K: 'P'}, exact)
+						own := NewSkSlot(sa.New(), Kind{K: 'D'}, exact)
+						own.Q().Add(2)
+						other := NewSkSlot(sb.New(), Kind{K: 'D'}, exact)
+						other.Q().Add(2)
+						res.Evaluations += 2
+						if err := recv.Q().DecodeAndMergeWith(encodeOf(own.Q(), false)); err != nil {
+							fails = append(fails, mc.Fail{Clause: "C08.mapping-mismatch", Detail: fmt.Sprintf("a %s receiver refused the encoding of a sketch with the same mapping: %v", sa, err)})
+						}
+						if err := recv.Q().DecodeAndMergeWith(encodeOf(other.Q(), false)); err == nil {
+							fails = append(fails, mc.Fail{Clause: "C08.mapping-mismatch", Detail: fmt.Sprintf("a %s receiver accepted the encoding of a %s sketch (offset differs) after decoding a stream of its own mapping (exact=%v)", sa, sb, exact)})
+						}
+					}
+				}
+			}
 			// no mapping in the stream and none supplied
 			for _, exact := range []bool{false, true} {
 				src := NewSkSlot(a.New(), Kind{K: 'S'}, exact)
@@ -815,7 +842,7 @@ func handBuiltProtoShard() mc.Shard {
 
 // corpusSpecs: two-slot sketch worlds whose every reached state is a corpus
 // member for the serialisation properties.
-func corpusSpecs(prop, tier string, depthQ, depthT int, exactToo bool, check func(*SketchWorld, int) []mc.Fail) []*SketchScenarioSpec {
+func corpusSpecs(prop, tier string, depthQ, depthT int, exactToo bool, check func(*SketchWorld, int) []mc.Fail, extra ...skOp) []*SketchScenarioSpec {
 	var specs []*SketchScenarioSpec
 	kinds := []Kind{{K: 'D'}, {K: 'S'}, {K: 'P'}, {K: 'L', N: 3}, {K: 'H', N: 4}}
 	for _, ms := range mapGrid(tier) {
@@ -846,6 +873,7 @@ func corpusSpecs(prop, tier string, depthQ, depthT int, exactToo bool, check fun
 				sp.Ops = append(sp.Ops, skAddW(0, 1, 0.5), skAddW(0, -7.3, 2), skAddW(0, 0, 0.25), skAddW(0, 2.5, 1<<20), skAddRunV(0, 1.0, 70),
 					skAdd(1, 1), skAdd(1, -7.3), skAddW(1, 0, 3), skAddW(1, 1e3, 3),
 					skMerge(0, 1), skClear(0), skReweight(0, 0.5), skCodec(0, 1, false, false), skReadEncode(0))
+				sp.Ops = append(sp.Ops, extra...)
 				specs = append(specs, sp)
 			}
 		}
@@ -898,7 +926,10 @@ func init() {
 		Rule:        "faults are applied to every encoding of the corpus (distinct states of an explicit-state BFS over sketch histories; five producer store kinds; both variants; mapping embedded and omitted): EVERY cut point 0 <= t < len decoded by three consumer store kinds (and into a non-empty receiver) - strictly inside a block (per refwire's block boundaries) must be an error, on a boundary must succeed with exactly the content of the complete blocks (or fail for lack of a mapping); every one of the 240 undefined flag bytes substituted at every block boundary (once per distinct flag sequence) must be an error; every ordered pair of distinct mappings as (receiver, stream) must be an error; no panic anywhere; evaluations counts corpus states, counters give the numbers of truncations and substitutions; distinct_nontrivial counts distinct (contents, multisets)",
 		Assumptions: []string{"block boundaries are those of refwire (the independent decoder of C07)", "the flags for quadratic and quartic interpolation are defined by the documentation but not implemented: they are neither substituted nor required to decode"},
 		Shards: func(tier string) []mc.Shard {
-			sh := shardsOfSketchSpecs(corpusSpecs("C08", tier, 3, 4, true, checkC08))
+			// weights with a full significand encode on nine bytes (every byte of the
+			// longest varfloat is then a cut point); C08 compares with refwire, not with
+			// the reference weights, so they need not survive the +1/-1 transform
+			sh := shardsOfSketchSpecs(corpusSpecs("C08", tier, 3, 4, true, checkC08, skAddW(0, 3.3, 0.1), skAddW(0, -2.2, 1.0/3)))
 			return append(sh, mismatchShard(tier))
 		},
 		ShardBudget: budget(70*time.Second, 12*time.Minute),
